@@ -100,14 +100,15 @@ func runOpJobs(c *hx.Checker, jobs []opJob) {
 
 func tjs(ts ...*ref.T) []*hx.TJ { return hx.ToTJs(ts) }
 
-// runReuseJobs: operator-instance histories of depth 2. For consecutive op-route jobs of the same
+// runReuseJobs: operator-instance histories of depth 2 and 3. For consecutive op-route jobs of the same
 // node (same operator, same attributes) one operator instance is Init'ed once and then serves
 // the previous job's inputs followed by this job's inputs; the second answer is judged exactly
 // like a fresh one. (An operator whose Apply leaves state behind fails here.)
 func runReuseJobs(c *hx.Checker, jobs []opJob) {
 	jobs = filterJobs(jobs)
-	type pair struct{ prev, cur int }
+	type pair struct{ prev2, prev, cur int }
 	last := map[string]int{}
+	last2 := map[string]int{}
 	var pairs []pair
 	for i := range jobs {
 		j := &jobs[i]
@@ -116,17 +117,27 @@ func runReuseJobs(c *hx.Checker, jobs []opJob) {
 		}
 		key := j.oc.Op + "|" + hx.MustJSON(j.oc.Attrs)
 		if p, ok := last[key]; ok {
-			pairs = append(pairs, pair{p, i})
+			p2 := -1
+			if q, ok2 := last2[key]; ok2 {
+				p2 = q // history of depth 3: two earlier requests served by the same instance
+			}
+			pairs = append(pairs, pair{p2, p, i})
+			last2[key] = p
 		}
 		last[key] = i
 	}
 	c.ParallelFor(len(pairs), func(k int) {
 		p := pairs[k]
 		prev, cur := &jobs[p.prev], &jobs[p.cur]
+		var chain []*hx.OpCase
+		if p.prev2 >= 0 {
+			chain = append(chain, jobs[p.prev2].oc)
+		}
+		chain = append(chain, prev.oc)
 		id := "reuse(" + prev.id + ")->" + cur.id
 		tags := append([]string{"instance-reuse"}, cur.tags...)
 		c.Case(hx.CaseInfo{ID: id, Tags: tags, NonTrivial: true}, func() *hx.Violation {
-			res := hx.RunOpReuse(prev.oc, cur.oc)
+			res := hx.RunOpReuse(chain, cur.oc)
 			kind, detail := hx.Judge(cur.dom, res, cur.exp, cur.cmp)
 			if kind == "" {
 				if res.Err != nil {
@@ -135,7 +146,7 @@ func runReuseJobs(c *hx.Checker, jobs []opJob) {
 				return hx.OK("reuse-match/" + string(cur.dom))
 			}
 			return &hx.Violation{Kind: kind, Detail: "on a reused operator instance: " + detail,
-				Replay: map[string]any{"replay_kind": "op-reuse", "prev": prev.oc, "case": cur.oc, "domain": cur.dom, "expected": hx.ToTJs(cur.exp), "cmp": cur.cmp}}
+				Replay: map[string]any{"replay_kind": "op-reuse", "chain": chain, "case": cur.oc, "domain": cur.dom, "expected": hx.ToTJs(cur.exp), "cmp": cur.cmp}}
 		})
 	})
 }
@@ -143,16 +154,20 @@ func runReuseJobs(c *hx.Checker, jobs []opJob) {
 func init() {
 	replayers["op-reuse"] = func(raw json.RawMessage) *hx.Violation {
 		var r struct {
-			Prev     *hx.OpCase `json:"prev"`
-			Case     *hx.OpCase `json:"case"`
-			Domain   hx.Domain  `json:"domain"`
-			Expected []*hx.TJ   `json:"expected"`
-			Cmp      hx.Cmp     `json:"cmp"`
+			Prev     *hx.OpCase   `json:"prev"`
+			Chain    []*hx.OpCase `json:"chain"`
+			Case     *hx.OpCase   `json:"case"`
+			Domain   hx.Domain    `json:"domain"`
+			Expected []*hx.TJ     `json:"expected"`
+			Cmp      hx.Cmp       `json:"cmp"`
 		}
 		if err := json.Unmarshal(raw, &r); err != nil {
 			return &hx.Violation{Kind: "bad-replay", Detail: err.Error()}
 		}
-		res := hx.RunOpReuse(r.Prev, r.Case)
+		if r.Chain == nil && r.Prev != nil {
+			r.Chain = []*hx.OpCase{r.Prev}
+		}
+		res := hx.RunOpReuse(r.Chain, r.Case)
 		kind, detail := hx.Judge(r.Domain, res, hx.TJsT(r.Expected), r.Cmp)
 		if kind == "" {
 			return nil
